@@ -183,19 +183,50 @@ EXPORT errno_t _wcsnatcmp_s_chk(const wchar_t *dest, rsize_t dmax,
 
     if (fold_case) {
         rsize_t l1, l2;
+        rsize_t n1 = 0, n2 = 0;
         errno_t rc;
+        wchar_t *c;
+
+        /* wcsfc_s reads up to a terminator: fold bounded, terminated copies */
+        while (n1 < dmax && dest[n1])
+            n1++;
+        while (n2 < smax && src[n2])
+            n2++;
+        if (unlikely(n1 == dmax || n2 == smax)) {
+            invoke_safe_str_constraint_handler("wcsnatcmp_s"
+                                               ": dest/src unterminated",
+                                               (void *)dest, ESUNTERM);
+            return RCNEGATE(ESUNTERM);
+        }
 
         /* a character folds to at most three, and wcsfc_s wants room for one
            whole expansion (4 + terminator) at every character */
-        d1 = (wchar_t *)malloc((3 * dmax + 5) * sizeof(wchar_t));
-        rc = wcsfc_s(d1, 3 * dmax + 5, (wchar_t * restrict) dest, &l1);
+        d1 = (wchar_t *)malloc(((3 * n1 + 5) + (n1 + 1)) * sizeof(wchar_t));
+        if (unlikely(!d1)) {
+            invoke_safe_str_constraint_handler("wcsnatcmp_s: out of memory",
+                                               (void *)dest, ENOMEM);
+            return RCNEGATE(ENOMEM);
+        }
+        c = d1 + 3 * n1 + 5;
+        memcpy(c, dest, n1 * sizeof(wchar_t));
+        c[n1] = L'\0';
+        rc = wcsfc_s(d1, 3 * n1 + 5, c, &l1);
         if (rc != EOK) {
             free(d1);
             return rc;
         }
 
-        d2 = (wchar_t *)malloc((3 * smax + 5) * sizeof(wchar_t));
-        rc = wcsfc_s(d2, 3 * smax + 5, (wchar_t * restrict) src, &l2);
+        d2 = (wchar_t *)malloc(((3 * n2 + 5) + (n2 + 1)) * sizeof(wchar_t));
+        if (unlikely(!d2)) {
+            free(d1);
+            invoke_safe_str_constraint_handler("wcsnatcmp_s: out of memory",
+                                               (void *)dest, ENOMEM);
+            return RCNEGATE(ENOMEM);
+        }
+        c = d2 + 3 * n2 + 5;
+        memcpy(c, src, n2 * sizeof(wchar_t));
+        c[n2] = L'\0';
+        rc = wcsfc_s(d2, 3 * n2 + 5, c, &l2);
         if (rc != EOK) {
             free(d1);
             free(d2);
